@@ -572,6 +572,14 @@ Proof.
   intros [-> | ->] H; destruct v; try discriminate; reflexivity.
 Qed.
 
+Lemma mapM_ok_map {A B C} (f : B -> result C) (g : A -> B) (h : A -> C) l :
+  (forall x, In x l -> f (g x) = ROk (h x)) -> mapM f (map g l) = ROk (map h l).
+Proof.
+  induction l as [|x t IH]; intros H; [reflexivity|]. cbn [map mapM].
+  rewrite (H x (or_introl eq_refl)). cbn [bind]. rewrite IH by (intros y Hy; apply H; right; exact Hy).
+  reflexivity.
+Qed.
+
 Lemma sparse_entries_declared dt a b entries :
   numeric dt -> entries <> [] -> Forall (entry_ok dt (Z.of_nat a) (Z.of_nat b)) entries ->
   sparse_entries a b entries = ROk (map declared_entry entries).
@@ -588,7 +596,7 @@ Proof.
                 (map (fun j => match j with JArr l => l | _ => [] end) entries) = true).
   { destruct entries as [|e t]; [contradiction|]. inversion F as [|? ? (x & y & v & -> & _) _]; subst. reflexivity. }
   rewrite A, B. cbn [andb].
-  rewrite map_map. apply mapM_ok. intros e He. rewrite Forall_forall in F.
+  apply mapM_ok_map. intros e He. rewrite Forall_forall in F.
   destruct (F e He) as (x & y & v & -> & Hx & Hy & Iv). cbn [nth declared_entry]. unfold coord.
   assert (C1 : (x <? 0) = false) by (apply Z.ltb_ge; lia).
   assert (C2 : (Z.of_nat a <=? x) = false) by (apply Z.leb_gt; lia).
